@@ -32,7 +32,7 @@ EXPONENTS = [(0, 0), (1, 0), (0, 1), (2, 0), (1, 1), (0, 2)]
 
 
 def budget(tier):
-    return 192 if tier == "quick" else 4000
+    return 192 if tier == "quick" else 2400
 
 
 def moments(region):
